@@ -44,6 +44,12 @@ P["C05"] = dict(level="fault_enumeration", design="DESIGN.md 7.7", assumptions=C
  thorough=[leg("cards","plain",400000,16,128,120,1000), leg("cards","asan",20000,10,32,240,500)],
  text="Relaying man in the middle: each session is first run clean to learn its transcript, then replayed from the same coins with exactly one line altered (every prover->verifier line and every verifier->prover challenge; mutations +1, 0, swap with neighbour, +1 inside a structured line, value+q/value+p where the code states the range), or with one component of the verifier's public input changed; the verifier must not return true. Positions and mutations are drawn by the seed, not enumerated exhaustively per session.",
  note="trusted: the transcript schema is not assumed - mutations are chosen so that a wrong guess of a field's type cannot produce a false alarm")
+P["C08"] = dict(level="exploration", design="DESIGN.md 7.6", assumptions=["duplicate delivery of an already accepted contribution is not injected: the statement is silent about it and the code multiplies twice",
+   "a contribution is one three-line message (key, challenge, response) delivered whole or cut after a field"],
+ quick=[leg("keygen","plain",6000,16,32,60), leg("keygen","asan",1500,10,16,60)],
+ thorough=[leg("keygen","plain",500000,16,256,60,600), leg("keygen","asan",40000,10,64,60,300)],
+ text="k=2..8 real key-generation instances built from one published group (Schnorr group with random or canonical g, quadratic-residue group); the scheduler chooses each recipient's processing order - all (k-1)! orders at one recipient are enumerated for k<=5 (6 in the thorough tier) - interleaved with removals of accepted and of unknown contributions and with malformed contributions (every field +1, 0, missing, key outside the group, key+p, response+q, another party's proof, and a key of order 2q carrying a proof of knowledge that verifies); after every operation the recipient's common key must equal the harness-computed product of its own and the accepted keys, refused operations must leave it unchanged, and parties that accepted the same set must agree.",
+ note="trusted: harness product model (libgmp)")
 P["C12"] = dict(level="fault_enumeration", design="DESIGN.md 7.8", assumptions=["scope: every receiving side reachable in the simulations (verifiers of all proof kinds, channel receivers, broadcast, OT, coin flip) and the importers / stream constructors fed with simulation-produced artefacts under truncation at every offset and single-byte corruption; arbitrary byte strings unrelated to a valid artefact are outside what this family generates",
    "a crash, sanitizer report, abort, uncaught non-standard exception or hang on a receiving side is a violation; a negative result or a std::exception is a clean refusal",
    "sanitizer build uses -DTMCG_MAX_STACK_CHARS=4194304 (the macro is #ifndef-guarded) to keep the 671 MB line buffer from dominating the run time"],
